@@ -353,6 +353,32 @@ def obligations(r, tier, seed):
         fr.unchanged("after Graph.calc_chi2 / equals / to_g2o / _calc_chi2_gradient_hessian")
     obs.append(Ob("C15/graph-queries-are-pure", graph_queries, funcs=FUNCS, light=True, scope="shape-bounded", bound="one 3-vertex SE2/R2 graph"))
 
+    # ---- export is a query: an SE(3) graph with landmark offsets (not normalised, w of either sign; one parameter remembered from a
+    #      file, one created by the export), odometry with an arbitrary quaternion -- to_g2o writes a file and changes nothing
+    def export_pure(k):
+        r_ = k.r
+        vs = [r_.Vertex(1, k.pose("SE3", "p", unit=False)), r_.Vertex(2, k.pose("R3", "l")), r_.Vertex(3, k.pose("SE3", "q", unit=False)), r_.Vertex(4, k.pose("R3", "m"))]
+        off_a, off_b = k.pose("SE3", "offa", unit=False), k.pose("SE3", "offb", unit=False)
+        es = [r_.EdgeLandmark([1, 2], k.sym_matrix("O1", 3), k.pose("R3", "z1"), off_a, 5),
+              r_.EdgeLandmark([3, 2], k.sym_matrix("O2", 3), k.pose("R3", "z2"), off_a, 5),
+              r_.EdgeLandmark([3, 4], k.sym_matrix("O3", 3), k.pose("R3", "z3"), off_b, 0),
+              r_.EdgeOdometry([1, 3], k.sym_matrix("O4", 6), k.pose("SE3", "z4", unit=False))]
+        g = r_.Graph(es, vs)
+        g._g2o_params = {("PARAMS_SE3OFFSET", 5): r_.g2o_parameters.G2OParameterSE3Offset(("PARAMS_SE3OFFSET", 5), off_a)}
+        fr = Frame(k, vs, es, extra_arrays=[off_a, off_b])
+        params_before = dict(g._g2o_params)
+        for rep in (1, 2):
+            fd, path = tempfile.mkstemp(prefix="gsv-c15-", suffix=".g2o")
+            os.close(fd)
+            try:
+                k.returns(lambda: g.to_g2o(path), "Graph.to_g2o returns (export %d)" % rep)
+            finally:
+                os.unlink(path)
+        fr.unchanged("after two exports")
+        k.check(list(g._g2o_params.items()) == list(params_before.items()), "the remembered parameters are the same objects under the same keys")
+    obs.append(Ob("C15/export-is-pure/SE3-landmarks-with-offsets", export_pure, funcs=FUNCS + ["graphslam.graph.Graph.to_g2o"], light=True,
+                  scope="shape-bounded", bound="one 4-vertex SE3/R3 graph"))
+
     for name, sh in (("SE2-R2-real-edges", {"vertices": [(10, "SE2", False), (3, "R2", False), (-1, "SE2", True)],
                                             "edges": [("odometry", (10, -1), 0), ("landmark", (10, 3), 0), ("cut", (3, -1), 2)], "fix_first_pose": True, "idset": 1}),
                      ("SE3-R3-cut-edges", {"vertices": [(1, "SE3", False), (2, "R3", False)], "edges": [("cut", (1, 2), 3), ("cut", (2, 1), 2), ("cut", (1,), 1)], "fix_first_pose": True, "idset": 0})):
